@@ -258,6 +258,19 @@ class CommentStyle:
         lines = text.splitlines()
         end: Optional[int] = None
 
+        # If the multi-line start marker begins with the single-line marker
+        # (Julia: '#=' and '#'), a multi-line comment would be mistaken for a
+        # single-line comment. Try the multi-line comment first in that case.
+        if (
+            cls.can_handle_single()
+            and cls.can_handle_multi()
+            and cls.MULTI_LINE.start.startswith(cls.SINGLE_LINE)
+            and text.startswith(cls.MULTI_LINE.start)
+        ):
+            for i, line in enumerate(lines):
+                if line.endswith(cls.MULTI_LINE.end):
+                    return "\n".join(lines[: i + 1])
+
         if cls.can_handle_single():
             for i, line in enumerate(lines):
                 if (
